@@ -253,6 +253,9 @@ def _resolve_identifier(
         value_chain = scope_chain if scope.lexical else outer_chain
         try:
             binding = scope.get_binding(identifier.name)
+            if id(binding) in scope.supplied:
+                # An argument supplied to a function is evaluated at the call site.
+                return _resolve_binding(binding, outer_chain)
             return _resolve_binding(binding, value_chain)
         except KeyError:
             quoted_match = next(
